@@ -6,6 +6,26 @@ import re
 VERIF = os.path.dirname(os.path.dirname(os.path.abspath(__file__)))
 
 
+ROUNDS = """Five rounds of independent seeding (sub-agents in scratch worktrees of /repo; they see the twenty property texts, the list of
+earlier changes so that nothing is repeated, and nothing of /verif): `Cnn-A/B` and `Cnn-A2/B2` one agent per property (rounds 1, 2);
+`K01..K12` one agent per component (round 3); `S01..S10` per component with the instruction to damage what the recent `fix:` commits
+established without reverting them (round 4); `R01..R12` per property again, for the properties with the fewest changes so far
+(round 5: C02 C04 C06 C08 C10 C12 C13 C14 C15 C16 C19 C03). Every change compiles, passes the pinned suite and comes with a
+demonstration that fails with it and passes without it (re-run here before the change was kept). After each round the changes no
+check caught were used to WIDEN the generators - never to special-case the change:
+round 4 -> hostile watch requests and short borders (C20), `fwd noleader` / `leader=none` (C18), the re-entrant lock fact (C19), native
+first-read cases, single-key etcd ranges (C08), the 30001-event catch-up, cancel-once and the real-gRPC-stream test (C05), straddling /
+sibling / mark-age Events (C17); round 5 (6 of 24 missed at first) -> the node's read-only election endpoints as `info` steps between
+any two lock steps and RELEASE records (an Update without a Get in front of it) in every C14 regime (R08-A/B); take-overs of a released
+or missing lock record with the started-leading callback ahead of the renew loop's first poll, and the engine-timestamp fault BELOW the
+storage-metrics wrapper (C15; R09-A/B); a key space over 1100..1300 real mock-cluster regions (C13, C12; R06-B); the prev_kv of a DELETE
+event on a watch served through a FOLLOWER (C16, C18; R10-B); the edge of a full dealing window under a dozen concurrent dealers
+(`TestTsoWindowEdge`: a concrete duplicate for R01-A, which the broken shape fact of KB.C18Cas had reported without an input).
+All 24 round-5 changes are caught now; the table is regenerated from the `result.json` files.
+
+"""
+
+
 def main():
     rows = []
     d = os.path.join(VERIF, "seeded")
@@ -46,6 +66,7 @@ def main():
             "`result.json` (written by `python3 -m kbcheck.seedtest`: the registered checks run against a tree with the patch applied).\n"
             "`fixrevert-*` = the reverse of a `fix:` commit (the original defect); `Cnn-A/B` = changes written by independent sub-agents that saw\n"
             "only the property text. A check 'catches' a change when it exits 1 with a VIOLATION line.\n\n"
+            + ROUNDS +
             "| id | change | needs | caught by |\n|---|---|---|---|\n" + table + "\n\n")
     p = os.path.join(VERIF, "DESIGN.md")
     s = open(p).read()
